@@ -331,9 +331,13 @@ bool Hash2KeysSetOf<THasher>::putIfNotPresent(const void* key1, int key2)
     // Apply 4 load factor to find threshold.
     XMLSize_t threshold = fHashModulus * 4;
 
-    // If we've grown too big, expand the table and rehash.
+    // If we've grown too big, expand the table and rehash. The bucket
+    // index computed above belongs to the old modulus, so compute it again.
     if (fCount >= threshold)
+    {
         rehash();
+        hashVal = fHasher.getHashVal(key1, fHashModulus);
+    }
 
     if(fAvailable==0)
         newBucket = (Hash2KeysSetBucketElem*)fMemoryManager->allocate(sizeof(Hash2KeysSetBucketElem));
